@@ -7,7 +7,7 @@ from harness import modelgen as G
 PID = "C18"; COQ_TARGET = "C18"
 SCHEMES = ["fourth_order_central_difference", "central_difference", "backward_difference", "forward_difference"]
 RULE = ("random smooth networks (mass action order 0-4 with repeats, four Hill kinds with integer and fractional exponents, general rational / exponential rates), "
-        "1-3 species, 1-3 reactions, states in [0.5,6], parameters >= 0.1, every parameter name, four schemes; non-trivial = a non-linear rate law is present")
+        "1-3 species, 1-3 reactions, states in [0.5,6] (mass-action networks also with one component below the stencil's reach), parameters >= 0.1, every parameter name, four schemes; non-trivial = a non-linear rate law is present")
 TRUSTED = ["hand model coq/Model/Sensitivity.v tied by correspondence only", "np.round(.,10) applied by the harness to the model's output"]
 ASSUMPTIONS = ["analytic derivative by sympy on the rate laws of the generated spec (harness oracle)", "error bound = 3 x (leading + next error term of the scheme at the point) + 1e-9"]
 POOL = ["kg*%s", "kg*%s*%s", "kg*%s/(1+%s)", "kg*%s^2/(Kg+%s^2)", "kg*exp(-%s/Kg)", "kg/(Kg+%s)"]
@@ -20,6 +20,10 @@ def gen_cases(seed, tier):
         for rx in spec["reactions"]:   # parameters >= 0.1 by construction of the generator's value pool
             pass
         x = {s: round(rng.uniform(0.5, 6.0), 3) for s in spec["species"]}
+        # a component smaller than the stencil's reach (2h = 0.02): the rate laws are evaluated below zero, where mass action is
+        # still the same polynomial -- the derivative must not notice  (seeded change S3_C18: states clamped at 0 in the right-hand side)
+        if all(rx["type"] == "massaction" for rx in spec["reactions"]) and rng.random() < 0.6:
+            x[rng.choice(list(x))] = rng.choice([0.004, 0.011, 0.0005])
         cases.append({"spec": spec, "x": x, "t": 0.0})
     return cases
 
